@@ -458,6 +458,7 @@ func c02R4(c *Ctx, r *Report, e *aliasEngine, fns []*ssa.Function) {
 
 func c02R5(c *Ctx, r *Report, e *aliasEngine, scope map[*ssa.Function]bool, fns []*ssa.Function) {
 	r.rule("C02.R5.bounds", 80, "every index / slice / fixed-width access on a byte buffer in the decoders has its upper end entailed <= len(buffer), and every b[lo:hi] has lo <= hi entailed")
+	withAllSlices = true // index and slice expressions on slices of every element type
 	bp := newBoundsProver(c, e, scope)
 	np := 0
 	for _, m := range bp.post {
@@ -482,6 +483,7 @@ func c02R5(c *Ctx, r *Report, e *aliasEngine, scope map[*ssa.Function]bool, fns 
 		}
 	}
 	r.extra["bounds_proof_kinds"] = why
+	withAllSlices = false
 
 	// "whatever is accepted can be re-packed without panicking", for the text packers: character-strings and octet
 	// strings keep the octets the decoder accepted as escaped text; packing walks that text with index arithmetic of
